@@ -8,8 +8,10 @@ Model of `pkg/scrypto/signed` (`msg.go`, `algo.go`): `Sign`, `Verify`, `computeS
   algorithm and the *pre-image* `hdrAndBody ‖ associatedData…`; the real code hashes the same
   bytes in the same order — tied by the engine `signed`).
 * `proto.Unmarshal` (the lenient protobuf parser behind `extractHeaderAndBody`) is NOT modelled:
-  it is the field `parse` of a `Framing`.  `Verify` computes the signature input from the RAW
-  `HeaderAndBody` bytes, never from the parsed header — the model does the same.
+  its two uses are the fields `parseOuter` / `parseHdr` of a `Framing`.  `Verify` computes the
+  signature input from the RAW `HeaderAndBody` bytes, never from the parsed header — the model
+  does the same — and (`checkCanonicalHeaderAndBody`) accepts the raw bytes only if they are
+  exactly what `proto.Marshal` produces for the parsed outer message.
 * The encoder side (`encHeader`, `encHdrAndBody`, `preimage`) is concrete and executable: the
   driver prints the bytes and the engine compares them with the real ones.
 Core Lean only.
@@ -35,13 +37,12 @@ def Header.tsIsZero (h : Header) : Bool := h.sec == zeroSec && h.nanos == 0
 
 /-! ### protobuf wire encoding (encoder side only) -/
 
-/-- base-128 little-endian varint of a value `< 2^64` (at most 10 bytes, hence the fuel). -/
-def varintF : Nat → Nat → Bytes
-  | 0, _ => []
-  | f+1, n => if n < 128 then [UInt8.ofNat n]
-              else UInt8.ofNat (n % 128 + 128) :: varintF f (n / 128)
-
-def varint (n : Nat) : Bytes := varintF 10 (n % 2^64)
+/-- base-128 little-endian varint (protowire.AppendVarint; all values that occur are `< 2^64`:
+lengths, and `u64OfInt` images). -/
+def varint (n : Nat) : Bytes :=
+  if n < 128 then [UInt8.ofNat n]
+  else UInt8.ofNat (n % 128 + 128) :: varint (n / 128)
+decreasing_by omega
 
 /-- two's-complement 64-bit image of a (sign-extended) integer field -/
 def u64OfInt (i : Int) : Nat := (i % (2^64 : Int)).toNat
@@ -90,7 +91,7 @@ def preimage (hb : Bytes) (ad : List Bytes) : Bytes := hb ++ ad.flatten
 inductive KeyKind | ecdsa | other
 deriving DecidableEq, Repr
 
-inductive Err | nilKey | parse | adLen | algo | keyType | sig
+inductive Err | nilKey | parse | nonCanonical | adLen | algo | keyType | sig
 deriving DecidableEq, Repr
 
 /-- `_, ok := signatureAlgorithmDetails[a]` (keys regenerated into `Scion.Gen.Signed`) -/
@@ -103,12 +104,32 @@ def checkPubKeyAlgo (a : Nat) (k : KeyKind) : Except Err Unit :=
     | .ecdsa => .ok ()
     | .other => .error .keyType
 
-/-- encoder and parser of the `HeaderAndBody` bytes -/
+/-- the two uses of `proto.Unmarshal` in `extractHeaderAndBody` -/
 structure Framing where
-  /-- `rawHdrAndBody` as computed by `Sign` -/
-  enc : Header → Bytes → Bytes
-  /-- `extractHeaderAndBody` -/
-  parse : Bytes → Option (Header × Bytes)
+  /-- `proto.Unmarshal(hdrAndBody.Header, &hdr)` followed by the field conversions -/
+  parseHdr : Bytes → Option Header
+  /-- `proto.Unmarshal(signed.HeaderAndBody, &hdrAndBody)`: `Header`, `Body` and the unknown
+  fields the message retains -/
+  parseOuter : Bytes → Option (Bytes × Bytes × Bytes)
+
+/-- `rawHdrAndBody` as computed by `Sign` -/
+def enc (h : Header) (body : Bytes) : Bytes := encHdrAndBody (encHeader h) body
+
+/-- `extractHeaderAndBody` -/
+def extract (F : Framing) (hb : Bytes) : Option (Header × Bytes) :=
+  match F.parseOuter hb with
+  | none => none
+  | some (e, b, _) =>
+    match F.parseHdr e with
+    | none => none
+    | some h => some (h, b)
+
+/-- `checkCanonicalHeaderAndBody`: re-marshalling the parsed outer message (known fields in field
+order, then the retained unknown fields) must reproduce the raw bytes. -/
+def canonical (F : Framing) (hb : Bytes) : Bool :=
+  match F.parseOuter hb with
+  | none => false
+  | some (e, b, u) => encHdrAndBody e b ++ u == hb
 
 /-- the signature primitive; `algo` selects the hash, the `Bytes` argument is the pre-image.
 `rnd` stands for `rand.Reader`. -/
@@ -125,7 +146,7 @@ structure SignedMessage where
 deriving DecidableEq, Repr
 
 /-- `Sign` up to (excluding) the call of the primitive: the bytes to be signed. -/
-def signInput (F : Framing) (h : Header) (body : Bytes) (k : Option KeyKind) (ad : List Bytes) :
+def signInput (h : Header) (body : Bytes) (k : Option KeyKind) (ad : List Bytes) :
     Except Err (Bytes × Bytes) :=
   match k with
   | none => .error .nilKey
@@ -133,15 +154,15 @@ def signInput (F : Framing) (h : Header) (body : Bytes) (k : Option KeyKind) (ad
     if (adLenOf ad : Int) ≠ h.adLen then .error .adLen
     else match checkPubKeyAlgo h.algo k with
       | .error e => .error e
-      | .ok _ => .ok (F.enc h body, preimage (F.enc h body) ad)
+      | .ok _ => .ok (enc h body, preimage (enc h body) ad)
 
 /-- `Sign` -/
-def signMsg {SK PK : Type} (F : Framing) (S : Scheme SK PK) (h : Header) (body : Bytes)
+def signMsg {SK PK : Type} (S : Scheme SK PK) (h : Header) (body : Bytes)
     (sk : Option SK) (rnd : Nat) (ad : List Bytes) : Except Err SignedMessage :=
   match sk with
   | none => .error .nilKey
   | some s =>
-    match signInput F h body (some (S.kind (S.pub s))) ad with
+    match signInput h body (some (S.kind (S.pub s))) ad with
     | .error e => .error e
     | .ok (hb, pre) => .ok ⟨hb, S.sign s rnd h.algo pre⟩
 
@@ -151,17 +172,14 @@ def verifyMsg {SK PK : Type} (F : Framing) (S : Scheme SK PK) (m : SignedMessage
   match pk with
   | none => .error .nilKey
   | some pk =>
-    match F.parse m.hb with
+    match extract F m.hb with
     | none => .error .parse
     | some (h, b) =>
-      if (adLenOf ad : Int) ≠ h.adLen then .error .adLen
+      if !canonical F m.hb then .error .nonCanonical
+      else if (adLenOf ad : Int) ≠ h.adLen then .error .adLen
       else match checkPubKeyAlgo h.algo (S.kind pk) with
         | .error e => .error e
         | .ok _ =>
           if S.verify pk h.algo (preimage m.hb ad) m.sig then .ok (h, b) else .error .sig
-
-/-- the concrete protobuf encoder with a given parser -/
-def pbFraming (parse : Bytes → Option (Header × Bytes)) : Framing :=
-  { enc := fun h b => encHdrAndBody (encHeader h) b, parse := parse }
 
 end Scion.Signed
